@@ -78,6 +78,7 @@ func genC03(seed uint64, tier string) *Plan {
 		}
 	}
 	p.Ops = append(p.Ops, Op{K: "check", Dt: 1000, Strs: genBattery(r, p, u, o, r.Range(2, 6)), S: PickOne(r, []string{"A", "B"})})
+	maybeYield(r, p, 0.4)
 	return p
 }
 
